@@ -10,10 +10,14 @@
 //	R return  G growValueStack  g growth that happened inside the preceding call (70% rule;
 //	emitted as observed, dropped and re-derived on replay)  T<a>:<lc> tail call
 //	N<i> new variable instance in slot i (the machine does nothing)
+//	W<k>:<v> an error with value v thrown in the current frame is caught k frames up (Thread.rethrow
+//	through the hook vm/verif_c13b.go): k frames are discarded, stack trace (reads as 0) and error
+//	are pushed in the catching frame; the model runs k OUnwind, OPush 0, OPush v
 package main
 
 import (
 	"fmt"
+	"reflect"
 	"strconv"
 	"strings"
 
@@ -68,9 +72,19 @@ func (r *runner) exec(tok string) {
 	case 'T':
 		m.TailCall(a, b)
 	case 'N':
+	case 'W':
+		unwind(m, a, int64(b))
 	default:
 		panic("bad token " + tok)
 	}
+}
+
+// the unwinding hook lives in a separate file (vm/verif_c13b.go); looked up by name so that the harness still
+// builds (and reports `unwind-hook-missing`) against a checkout that does not have it yet
+var haveUnwind = reflect.ValueOf(&vm.VerifC13{}).MethodByName("Unwind").IsValid()
+
+func unwind(m *vm.VerifC13, k int, v int64) {
+	reflect.ValueOf(m).MethodByName("Unwind").Call([]reflect.Value{reflect.ValueOf(k), reflect.ValueOf(v)})
 }
 
 // is the token safe to execute on the live state (memory-safe for the Go code)?
@@ -103,6 +117,9 @@ func safe(m *vm.VerifC13, tok string) bool {
 		return m.Cap() <= 4096
 	case 'T':
 		return a >= 1 && b >= 0 && a+b <= live
+	case 'W':
+		// at least one slot in the throwing frame (what restoreLastFrame moves down), room for stack trace + error
+		return haveUnwind && a >= 1 && a <= m.Frames() && live >= 1 && m.FpOff()+3 < m.Cap()
 	}
 	return false
 }
@@ -115,7 +132,7 @@ func gen(rng *hx.Rng, r *runner, n int, disciplined bool) {
 	val := 10
 	for k := 0; k < n; k++ {
 		live := m.SpOff() - m.FpOff()
-		c := rng.Below(100)
+		c := rng.Below(105)
 		var tok string
 		pickLocal := func() int {
 			if live == 0 || (!disciplined && rng.Chance(1, 12)) {
@@ -124,6 +141,29 @@ func gen(rng *hx.Rng, r *runner, n int, disciplined bool) {
 			return rng.Below(live)
 		}
 		switch {
+		case c >= 100:
+			// an error thrown here is caught 1..3 frames up; afterwards the handler drops error, stack trace and
+			// (mostly) the slot the discarded frames left behind
+			if m.Frames() == 0 || !haveUnwind {
+				continue
+			}
+			val++
+			tok = fmt.Sprintf("W%d:%d", 1+rng.Below(min(m.Frames(), 3)), val)
+			if safe(m, tok) {
+				r.exec(tok)
+				for j := rng.Range(0, 3); j > 0; j-- {
+					if disciplined {
+						l := m.SpOff() - m.FpOff()
+						if t := fmt.Sprintf("X%d", l-1); l > 0 && safe(m, t) {
+							r.exec(t)
+						}
+					}
+					if safe(m, "O") {
+						r.exec("O")
+					}
+				}
+			}
+			continue
 		case c < 22:
 			val++
 			tok = fmt.Sprintf("P%d", val)
@@ -214,7 +254,7 @@ func main() {
 	k := 0
 	for _, in := range hx.ReadInputs(o.Input) {
 		f := strings.Fields(in)
-		if len(f) < 1 || (noTail && strings.Contains(in, " T")) {
+		if len(f) < 1 || (noTail && strings.Contains(in, " T")) || (!haveUnwind && strings.Contains(in, " W")) {
 			continue
 		}
 		capSlots, _ := strconv.Atoi(f[0])
@@ -233,6 +273,10 @@ func main() {
 		})
 		emit(fmt.Sprintf("c%d", k), capSlots, r, res)
 		k++
+	}
+	if o.Extra == "haveunwind" {
+		fmt.Println(haveUnwind)
+		return
 	}
 	rng := hx.NewRng(o.Seed)
 	for i := 0; i < o.N; i++ {
